@@ -1,5 +1,5 @@
 """C10 — MPS truncation and canonical form: structural clauses."""
-from ..rules import canon
+from ..rules import drivers, canon
 
 META = {
     "title": "MPS truncation and canonical form honour their contract",
@@ -29,3 +29,4 @@ def check(ctx):
     ctx.floor("TRUNCARGS", 12)
     ctx.floor("CENTER", 8)
     canon.gauge_moves(ctx)
+    drivers.sweep_boundaries(ctx)
